@@ -644,6 +644,7 @@ type gramResult struct {
 	Rounds    int
 	Script    *Script
 	PairSigs  map[string][]string // rule signature -> canonical path renderings
+	SlotTerms map[string]map[string]string // "Kind.Slot" -> terminal stored there -> a rule that does it
 }
 
 func (g *gramCtx) obName(gp *gramParser, rule *yRule, class, what string) string {
@@ -659,7 +660,7 @@ type gramWant struct {
 }
 
 func (g *gramCtx) checkGrammar(c *CheckCtx, gp *gramParser, want gramWant) *gramResult {
-	res := &gramResult{Name: gp.Name, PairSigs: map[string][]string{}}
+	res := &gramResult{Name: gp.Name, PairSigs: map[string][]string{}, SlotTerms: map[string]map[string]string{}}
 	for _, p := range gp.Problems {
 		c.addOb("internal/"+gp.Name+"/table/grammar-file-matches-generated-parser: "+p, "table", "", false, p)
 	}
@@ -764,6 +765,29 @@ func (g *gramCtx) checkGrammar(c *CheckCtx, gp *gramParser, want gramWant) *gram
 			// --- pos
 			if want.Pos {
 				g.posObligations(c, gp, rule, r, out, kind, pi, pd, sc)
+			}
+			// --- which terminal ends up in which token slot of which node kind (C10: both grammars agree)
+			for _, o := range r.objs {
+				if o.Kind != "node" || o.T == nil || o.T.Obj().Pkg() == nil || o.T.Obj().Pkg().Name() != "ast" {
+					continue
+				}
+				for f, v := range o.Fields {
+					ref, ok := v.(gRef)
+					if !ok || ref.Obj == nil || ref.Obj.Kind != "token" || ref.Obj.Dollar <= 0 || ref.Obj.Dollar > len(rule.RHS) {
+						continue
+					}
+					term := rule.RHS[ref.Obj.Dollar-1]
+					if !gp.G.IsTerminal(term) {
+						continue
+					}
+					k := o.T.Obj().Name() + "." + f
+					if res.SlotTerms[k] == nil {
+						res.SlotTerms[k] = map[string]string{}
+					}
+					if _, seen := res.SlotTerms[k][term]; !seen {
+						res.SlotTerms[k][term] = fmt.Sprintf("rule %d %s", rule.Num, rule.LHS)
+					}
+				}
 			}
 			// --- pair signature (C10)
 			sig := rule.LHS + ": " + strings.Join(rule.RHS, " ")
@@ -1077,6 +1101,7 @@ func (c *CheckCtx) gramPairs(runs map[string]*gramRun) {
 	if a == nil || b == nil {
 		return
 	}
+	c.gramSlotTerminals(a, b)
 	norm := func(ss []string) []string {
 		var out []string
 		for _, s := range ss {
@@ -1111,4 +1136,46 @@ func (c *CheckCtx) gramPairs(runs map[string]*gramRun) {
 		c.addOb("grammars/pair/"+sig, "pair", "", same, "the shared production builds different results in the two grammars:\n"+strings.Join(diff, "\n"))
 	}
 	c.CoverageExtra["shared_productions"] = n
+}
+
+// gramSlotTerminals: for every token slot of every node kind that both grammars fill, the terminals
+// stored there by php5 actions that php7 also knows must be stored there by php7 actions too, and
+// vice versa ("the same node kinds ... the same tokens"): a keyword token that one grammar puts into
+// another construct's node (e.g. `and` into the node of `&&`) shows up as a terminal the other
+// grammar never stores in that slot.
+func (c *CheckCtx) gramSlotTerminals(a, b *gramRun) {
+	known := func(r *gramRun, term string) bool { return r.GP.G.IsTerminal(term) }
+	// named exceptions: `//@ gram slot-terminal-only <Kind.Slot> <terminal> : reason` (syntax one language
+	// version has and the other has not, or a terminal that reaches the slot through a non-terminal)
+	except := map[string]bool{}
+	for _, pk := range []string{"internal/php7", "internal/php5"} {
+		if cf := c.W.CFiles[modPath+"/"+pk]; cf != nil {
+			for _, d := range cf.Directives {
+				f := strings.Fields(d)
+				if len(f) >= 4 && f[0] == "gram" && f[1] == "slot-terminal-only" {
+					except[f[2]+" "+f[3]] = true
+				}
+			}
+		}
+	}
+	for _, k := range sortedKeys(a.Res.SlotTerms) {
+		tb, ok := b.Res.SlotTerms[k]
+		if !ok {
+			continue
+		}
+		ta := a.Res.SlotTerms[k]
+		var bad []string
+		for t, where := range ta {
+			if _, ok := tb[t]; !ok && known(b, t) && !except[k+" "+t] {
+				bad = append(bad, fmt.Sprintf("php7 stores %s in %s (%s), php5 never does", t, k, where))
+			}
+		}
+		for t, where := range tb {
+			if _, ok := ta[t]; !ok && known(a, t) && !except[k+" "+t] {
+				bad = append(bad, fmt.Sprintf("php5 stores %s in %s (%s), php7 never does", t, k, where))
+			}
+		}
+		sort.Strings(bad)
+		c.addOb("grammars/slot-terminals/"+k, "pair", "", len(bad) == 0, strings.Join(bad, "\n"))
+	}
 }
